@@ -229,7 +229,7 @@ def run_reduce(c):
 
 
 # ----------------------------------------------------------------------------- C19
-def _mk_f(sig, leaves=("id",)):
+def _mk_f(sig, leaves=("id",), defaults=False):
     """def f(a, b, /, c, *, d): s = 1*a + 10*b + 100*c + 1000*d; return <pytree of s>"""
     parts = []
     names = [p["name"] for p in sig]
@@ -237,7 +237,7 @@ def _mk_f(sig, leaves=("id",)):
     for i, n in enumerate(names):
         if kinds[i] == "kw" and (i == 0 or kinds[i - 1] != "kw"):
             parts.append("*")
-        parts.append(n)
+        parts.append(n + ("=9" if defaults else ""))
         if kinds[i] == "pos" and (i + 1 == len(names) or kinds[i + 1] != "pos"):
             parts.append("/")
     body = " + ".join(f"{10 ** i} * {n}" for i, n in enumerate(names))
@@ -308,7 +308,7 @@ def run_call(c):
     from lcm.functools import all_as_args, all_as_kwargs, allow_args, allow_only_kwargs, convert_kwargs_to_args
 
     out = dict(c)
-    f = _mk_f(c["sig"])
+    f = _mk_f(c["sig"], defaults=bool(c.get("defaults")))
     names = [p["name"] for p in c["sig"]]
     if c["wrapper"] in ("all_as_kwargs", "all_as_args", "convert_kwargs_to_args"):
         # helpers: the value bound to each name, encoded like the test function (sum 10^position * value)
